@@ -146,6 +146,7 @@ func runC09(p *Prog, r *Report) {
 	r.Floor("C09.R4", lockOpsOf(p, roots), 40, "lock acquisitions on call paths from entry points")
 	nLocks := c09Pairing(p, r, "C09.R3", "")
 	r.Floor("C09.R3", nLocks, 25, "lock acquisitions")
+	r.Floor("C09.R8", c09PanicSafe(p, r, "C09.R8", ""), 5, "critical sections that may run user-supplied code")
 	r.Floor("C09.R7", c09GetOrCreate(p, r, "C09.R7", roots), 2, "get-or-create insertions into shared maps")
 	limiterSerial(p, r, "C09.R6") // no update of a source's buckets is lost: get-or-create is one critical section
 	r.Floor("C09.R5", checkSnapshots(p, r, "C09.R5", nil), 4, "snapshot methods (Clone / Export) in memmetrics")
@@ -485,6 +486,101 @@ func c09GetOrCreate(p *Prog, r *Report, rule string, roots []*types.Named) int {
 						"guarded by a comma-ok lookup of the same key with no unlock in between", "the insertion is not guarded by a look-up of the key made under the same lock acquisition (the lock is released between the check and the insertion, or there is no re-check): concurrent first sightings overwrite each other's entry and the updates it holds are lost")
 				}
 			}
+		}
+	}
+	return n
+}
+
+// c09PanicSafe (R8): user-supplied code that runs while a middleware holds one of its locks (function
+// values and the module's extension interfaces: extractors, meters, counters factories, predicates,
+// options) may panic; net/http recovers the panic per request, so the process lives on — with the lock
+// still held unless it is released by defer. Every lock acquisition whose critical section may call
+// user code is released by a deferred unlock. pkg restricts the functions examined ("" = module).
+func c09PanicSafe(p *Prog, r *Report, rule, pkg string) int {
+	user := NewEvents(p, func(in ssa.Instruction) bool {
+		cc := CallCommonOf(in)
+		if cc == nil {
+			return false
+		}
+		if _, isGo := in.(*ssa.Go); isGo {
+			return false
+		}
+		if cc.IsInvoke() {
+			n, ok := cc.Value.Type().(*types.Named)
+			if !ok || n.Obj().Pkg() == nil || !isModPath(n.Obj().Pkg().Path()) || strings.Contains(n.Obj().Pkg().Path(), "/internal/") {
+				return false // not an extension point of the library (the internal clock provider is test scaffolding)
+			}
+			switch n.Obj().Name() {
+			case "Logger", "BalancerHandler", "balancerHandler":
+				return false // loggers are treated as effect-free throughout; the wrapped balancer is the module's own
+			}
+			return true
+		}
+		if cc.StaticCallee() != nil {
+			return false
+		}
+		if _, isB := cc.Value.(*ssa.Builtin); isB {
+			return false
+		}
+		if _, isMC := cc.Value.(*ssa.MakeClosure); isMC {
+			return false
+		}
+		return true // call of a function value
+	})
+	n := 0
+	for _, fn := range p.ModuleFuncs() {
+		if root := enclosingRoot(fn); root.Pkg == nil || strings.Contains(root.Pkg.Pkg.Path(), "/testutils") || isClockPkg(fn) {
+			continue
+		} else if pkg != "" && root.Pkg.Pkg.Name() != pkg {
+			continue
+		}
+		for _, c := range Calls(fn) {
+			call, ok := c.(*ssa.Call)
+			if !ok {
+				continue
+			}
+			op, ok := lockOp(call.Common())
+			if !ok || (op != "lock" && op != "rlock") {
+				continue
+			}
+			mu := call.Common().Args[0]
+			isUnlock := func(in ssa.Instruction) bool {
+				if _, isCall := in.(*ssa.Call); !isCall {
+					return false
+				}
+				cc := CallCommonOf(in)
+				o, ok := lockOp(cc)
+				return ok && (o == "unlock" || o == "runlock") && sameValue(cc.Args[0], mu)
+			}
+			deferred := false
+			var userCall ssa.Instruction
+			for x := range Reach(fn, call, isUnlock, nil) {
+				if d, ok := x.(*ssa.Defer); ok {
+					if o, ok := lockOp(d.Common()); ok && (o == "unlock" || o == "runlock") && sameValue(d.Common().Args[0], mu) {
+						deferred = true
+					}
+					if f := d.Common().StaticCallee(); f != nil && f.Parent() != nil {
+						for _, c2 := range Calls(f) {
+							if o, ok := lockOp(c2.Common()); ok && (o == "unlock" || o == "runlock") {
+								deferred = true
+							}
+						}
+					}
+					continue
+				}
+				if isUnlock(x) {
+					continue
+				}
+				if user.MayInstr(x) {
+					userCall = x
+				}
+			}
+			if userCall == nil {
+				continue
+			}
+			n++
+			r.Check(deferred, rule, "user code under the lock is panic-safe in "+FName(fn)+": "+op+" #"+fmt.Sprint(lockOrdinal(fn, call)), p.InstrPos(call),
+				"the critical section may call user-supplied code and is released by a deferred unlock", "the critical section may call user-supplied code (at "+p.InstrPos(userCall)+") but the lock is released by a plain Unlock: a panic in that code (recovered per request by net/http) leaves the lock held and every later request of every source blocks")
 		}
 	}
 	return n
